@@ -444,8 +444,16 @@ def eval_term(t, env):
 
 
 def eval_cond(c, env):
+    if c[0] == 'cmp' and c[1] in ('In', 'NotIn'):
+        if c[3][0] != 'tuple':
+            raise ValueError('membership in a non-literal collection')
+        a = eval_term(c[2], env)
+        r = any(a == eval_term(x, env) for x in c[3][1])
+        return r if c[1] == 'In' else not r
     if c[0] == 'cmp':
         a, b = eval_term(c[2], env), eval_term(c[3], env)
+        if c[1] not in ('Lt', 'LtE', 'Eq', 'NotEq'):
+            raise ValueError('comparison %s' % c[1])
         return {'Lt': a < b, 'LtE': a <= b, 'Eq': a == b, 'NotEq': a != b}[c[1]]
     if c[0] == 'not':
         return not eval_cond(c[1], env)
